@@ -61,6 +61,16 @@ def check(case):
         for v in vs:
             if not (isinstance(v, int) and 0 <= v < N):
                 raise Violation("foreign-vertex", f"vertex {v!r} outside 0..{N - 1} handed to a callback")
+    # ---- the library's own motif generators emit the documented edges (clique: all pairs; cycle: consecutive
+    # pairs plus the closing edge; diamond: 4-cycle plus both chords), also when a vertex fills two slots
+    for j, vs, es in journal:
+        mo = case["motifs"][j]
+        if mo["kind"] in ("clique", "cycle", "diamond") and len(vs) == mo["m"]:
+            got = Counter(frozenset(e) if e[0] != e[1] else (e[0],) for e in es)
+            want = Counter(frozenset(e) if e[0] != e[1] else (e[0],) for e in G.expected_rows(mo, vs))
+            if got != want:
+                raise Violation("builtin-motif-edges", f"{mo['kind']}_motif({vs}) returned {list(es)}, documented edges "
+                                                       f"{G.expected_rows(mo, vs)}")
     # ---- result object
     rows = []
     for j, vs, es in journal:
